@@ -219,6 +219,85 @@ class Grammar:
             return 0
         return cnt(self.expr(name))
 
+    def child_seqs(self, name, maxlen=4, cap=400):
+        """possible sequences of child pair kinds of a rule's pair, each cut after maxlen members (repetitions unrolled up to
+        maxlen copies); None when the enumeration is too large"""
+        def go(e, depth=0):
+            k = e["k"]
+            if depth > 14:
+                return None
+            if k in ("pos_pred", "neg_pred", "pos", "neg"):
+                return [()]
+            if k == "ident":
+                if e["v"] not in self.rules:
+                    return [("EOI",)] if e["v"] == "EOI" else [()]
+                if self.ty(e["v"]) == "silent":
+                    return go(self.expr(e["v"]), depth + 1)
+                return [(e["v"],)]
+            if k == "seq":
+                a = go(e["a"], depth + 1)
+                if a is None:
+                    return None
+                out = set()
+                rest = None
+                for x in a:
+                    if len(x) >= maxlen:
+                        out.add(x[:maxlen])
+                        continue
+                    if rest is None:
+                        rest = go(e["b"], depth + 1)
+                        if rest is None:
+                            return None
+                    for y in rest:
+                        out.add((x + y)[:maxlen])
+                        if len(out) > cap:
+                            return None
+                return sorted(out)
+            if k == "choice":
+                a, b = go(e["a"], depth + 1), go(e["b"], depth + 1)
+                if a is None or b is None:
+                    return None
+                return sorted(set(a) | set(b))
+            if k in ("opt",):
+                a = go(e["e"], depth + 1)
+                return None if a is None else sorted(set(a) | {()})
+            if k in ("rep", "rep1") or k.startswith("rep_"):
+                a = go(e["e"], depth + 1)
+                if a is None:
+                    return None
+                cur = {()} if k == "rep" or k.startswith("rep_") else set()
+                acc = set(cur)
+                frontier = {()}
+                for _ in range(maxlen):
+                    nxt = set()
+                    for x in frontier:
+                        for y in a:
+                            if not y:
+                                continue
+                            nxt.add((x + y)[:maxlen])
+                    acc |= nxt
+                    frontier = {x for x in nxt if len(x) < maxlen}
+                    if len(acc) > cap:
+                        return None
+                    if not frontier:
+                        break
+                if k == "rep1":
+                    acc.discard(())
+                    if any(not y for y in a):
+                        acc.add(())
+                return sorted(acc)
+            if k == "push":
+                return go(e["e"], depth + 1)
+            return [()]
+        return go(self.expr(name))
+
+    def child_at(self, name, k):
+        """set of pair kinds that can stand at child position k (0-based) of a rule's pair; None if not enumerable"""
+        seqs = self.child_seqs(name, maxlen=k + 1)
+        if seqs is None:
+            return None
+        return {s[k] for s in seqs if len(s) > k}
+
     def first_children(self, name):
         """set of rules the first child pair of a rule's pair can have (a superset when optional parts precede)"""
         def go(e, depth=0):
